@@ -4,3 +4,7 @@ open Verif.Props.C09
 #print axioms xml_output_wellformed
 #print axioms svg_path_output_parses
 #print axioms svg_path_lex_roundtrip
+#print axioms js_token_sep
+#print axioms js_tree_tokens_safe
+#print axioms js_tree_relex
+#print axioms js_expr_relex
